@@ -306,12 +306,17 @@ FlatPos(x, z, g, lo, k, hi, var) ==
        IN FlatPos(x, z2, g, lo, k + 1, hi, var)
 
 (* group_by: the keys in order of first appearance, the items of one key *)
-RECURSIVE KeysOf(_, _, _), ItemsOfKey(_, _, _)
-KeysOf(c, items, acc) == IF items = <<>> THEN acc
-                         ELSE LET k == KeyF(c, Head(items)) IN
-                              KeysOf(c, Tail(items), IF SeqContains(acc, k) THEN acc ELSE Append(acc, k))
-ItemsOfKey(c, items, k) == IF items = <<>> THEN <<>>
-                           ELSE (IF KeyF(c, Head(items)) = k THEN <<Head(items)>> ELSE <<>>) \o ItemsOfKey(c, Tail(items), k)
+(* key function 3 is stateful (FnMut): it answers 0, 1, 0, 1, ... -- the key of an item is what the function said when it was *)
+(* asked about that item, once                                                                                              *)
+KeyAt(c, items, i) == IF c = 3 THEN I((i - 1) % 2) ELSE KeyF(c, items[i])
+RECURSIVE KeysFrom(_, _, _, _), ItemsOfKeyFrom(_, _, _, _)
+KeysFrom(c, items, i, acc) == IF i > Len(items) THEN acc
+                              ELSE LET k == KeyAt(c, items, i) IN
+                                   KeysFrom(c, items, i + 1, IF SeqContains(acc, k) THEN acc ELSE Append(acc, k))
+KeysOf(c, items, acc) == KeysFrom(c, items, 1, acc)
+ItemsOfKeyFrom(c, items, i, k) == IF i > Len(items) THEN <<>>
+                                  ELSE (IF KeyAt(c, items, i) = k THEN <<items[i]>> ELSE <<>>) \o ItemsOfKeyFrom(c, items, i + 1, k)
+ItemsOfKey(c, items, k) == ItemsOfKeyFrom(c, items, 1, k)
 
 (* documented output of AST x, subscribed after position lo of the global timeline g  *)
 (* (the notifications <<input, t, v>> sent into the hot inputs since the behaviour      *)
